@@ -10,7 +10,7 @@ Theorem C10_framing : forall (root : tree D) input d r,
   run root input d (mkFmt None []) = Val r -> r_err r = None ->
   Forall (fun t => t <> []) (unit_texts (r_trace r)) ->
   r_out r = match unit_texts (r_trace r) with [] => [] | us => intercalate [59] us ++ [10] end.
-Proof. exact framing. Qed.
+Proof. apply framing. Qed.
 
 Theorem C10_unit_text_structure : forall (hs : list (list byte)) (ds : list rdata) b,
   Forall (fun x => snd (chunks_of x) = None) ds ->
@@ -20,11 +20,11 @@ Theorem C10_unit_text_structure : forall (hs : list (list byte)) (ds : list rdat
                    ++ (match hs, ds with _ :: _, _ :: _ => [32] | _, _ => [] end)
                    ++ intercalate [44] (map data_text ds)
   /\ ru_result (snd fu) = None.
-Proof. exact unit_text_structure. Qed.
+Proof. apply unit_text_structure. Qed.
 
 Theorem C10_event_writes_nothing : forall (p : hprog D) toks f toks' d f' r,
   run_prog p toks f None = (toks', d, f', r) -> f' = f.
-Proof. exact event_writes_nothing. Qed.
+Proof. apply event_writes_nothing. Qed.
 
 End C10_statements.
 
